@@ -742,7 +742,7 @@ func init() {
 			"hrefs are compared after percent-decoding; file servers: dot segments resolved (RFC 3986) and a collection may carry or lack a trailing slash; CalDAV/CardDAV: the backend's own path exactly",
 			"don't-care: empty <prop/>; empty body with an XML Content-Type (400 or allprop); CalDAV/CardDAV root answered with a single response labelled with the request path or the principal's path for any Depth; invalid Depth on ServePrincipal (400 or Depth-0 answer)",
 			"symbolic links (fs-local): every directory entry of the addressed collection, whatever its kind, is a member in scope exactly once; how a link is described (file or collection, which properties and values) is don't-care (only the answer's own consistency is judged: each requested name once, 200 or 404, 404 empty); answers below a link to a directory are don't-care at Depth infinity; a dangling link may be listed or omitted; links are never addressed themselves",
-			"RFC 4918 section 9.1: the answer to a PROPFIND is a function of the request, not of how its body is framed (known or unknown length, chunk sizes, read granularity); a reader that returns (0, nil) before delivering is only used for bodies with content; a body of only white space, an XML declaration or a BOM may be refused (4xx) or taken as empty (allprop)",
+			"RFC 4918 section 9.1: the answer to a PROPFIND is a function of the request, not of how its body is framed (known or unknown length, chunk sizes, read granularity); a reader that returns (0, nil) before delivering is only used for bodies with content; a body of only white space, an XML declaration or a BOM may be refused (4xx) or taken as empty (allprop), in each framing on its own; a malformed body (among them one to three bytes of junk with and without a Content-Type) must be refused in every framing",
 			"wire exchanges that fail as I/O (never seen) are inconclusive, not findings; no oracle depends on time",
 			"requested property elements are empty, so the prop and allprop values of one resource must coincide",
 			"Depth values used as valid are exactly 0, 1, infinity; invalid ones are clearly outside the grammar (no case or white-space variants)",
